@@ -58,7 +58,7 @@ FLAVOURS = {  # (quick, thorough)
 }
 SEEDS = {  # number of scenarios (each runs schedulesPer(prop, tier) schedules): (quick, thorough)
     "C02": (10000, 200000), "C03": (8000, 100000), "C09": (10000, 200000), "C12": (600, 6000), "C13": (20000, 400000),
-    "C15": (1200, 30000), "C18": (10000, 200000),
+    "C15": (1000, 30000), "C18": (10000, 200000),
 }
 
 def crash_site(c):
@@ -470,7 +470,7 @@ def main():
     if prop == "C15" and shutil.which("valgrind"):
         if "plain" not in flavours: build(["plain"])
         vg_results = []
-        vg_runs = valgrind_batch(prop, tier, base + 7919, 12 if tier == "quick" else 1500, vg_results)
+        vg_runs = valgrind_batch(prop, tier, base + 7919, 8 if tier == "quick" else 1500, vg_results)
         results_vg = vg_results
     else:
         results_vg = []
